@@ -5,7 +5,7 @@
 set -u
 SRC=$1; PROP=$2
 WT=/tmp/seedcheck/$PROP
-export CARGO_NET_OFFLINE=true CARGO_TARGET_DIR=/tmp/seedcheck/target
+export CARGO_NET_OFFLINE=true CARGO_TARGET_DIR=/tmp/seedcheck/target${VERIF_ALT_TAG:-}
 rm -rf "$WT"; git -C /repo worktree prune; git -C /repo worktree add -q --detach "$WT" HEAD || exit 2
 cd "$WT"
 git apply "$SRC/SEEDED_PATCH.diff" || { echo "PATCH DOES NOT APPLY"; exit 3; }
